@@ -108,6 +108,11 @@ def gen_cases(rng, tier):
 		cases.append({
 			'kind': 'txmosaic', 'signer': rand_bytes(rng, 32).hex(), 'nonce': rng.choice([0, 1, 2**32 - 1, 2**31, rng.randrange(2**32)]),
 			'embedded': bool(i % 2), 'network': ['testnet', 'mainnet'][i // 2 % 2]})
+	# the same signer through both networks' factories, one right after the other, in both orders (the owner address differs by network)
+	for i in range(max(6, n // 10)):
+		signer, nonce = rand_bytes(rng, 32).hex(), rng.randrange(2**32)
+		for network in (('mainnet', 'testnet', 'mainnet') if i % 2 else ('testnet', 'mainnet', 'testnet')):
+			cases.append({'kind': 'txmosaic', 'signer': signer, 'nonce': nonce, 'embedded': bool(i // 2 % 2), 'network': network})
 	return cases
 
 
